@@ -257,7 +257,7 @@ theorem step_chan {w s l s'} (hs : step w s l = some s') : ChanSteps s.chan s'.c
   case streamReady => exact .one (.same (stepStreamReady_chan hs))
   case streamEnd => exact .one (.same (stepStreamEnd_chan hs))
   case taskDone => exact .one (.drop (stepTaskDone_chan hs))
-  case quiescent => simp at hs; subst hs; exact .one (.same rfl)
+  case quiescent => simp only [stepQuiescent] at hs; split at hs <;> simp at hs; subst hs; exact .one (.same rfl)
   case tDeq => exact .one (.deq (stepDeq_chan hs).1 (stepDeq_chan hs).2)
   case tChanEnd => exact .one (.same (stepChanEnd_chan hs))
   case tStreamEnd => exact .one (.same (stepStreamEndTau_chan hs))
